@@ -25,6 +25,7 @@ LEVEL_NOTE = ("edit_predicts is a composition with the build model of C02 (anoth
               "hypothesis and sampled through real builds. owners is modelled for cleaned package-relative input paths (no '..', no globs). "
               "Trusted: Lean kernel; propext/Classical.choice/Quot.sound; the correspondence harness; JSON loader, cobra/viper flag plumbing (CLI tie only).")
 TECHNIQUE = "Lean 4 proof over an executable model + differential correspondence (in-process command bodies and real CLI stdout)"
+PROP_MODULES = ["GrogModel.Props.C20", "GrogModel.Props.ComposeQuery"]
 OBLIGATIONS = [
     "Grog.C20.deps_exact",
     "Grog.C20.rdeps_exact",
@@ -40,6 +41,8 @@ OBLIGATIONS = [
     "Grog.C20.changes_exact",
     "Grog.C20.owners_noncanonical_witness",
     "Grog.C20.printedDistinct_of_labels",
+    "Grog.Compose.reexec_downstream",
+    "Grog.Compose.edit_predicts",
 ]
 ASSUMPTIONS = [
     "labels of distinct nodes are distinct (BuildNodeMap is keyed by label) — hypothesis LabelsDistinct of the exactness theorems",
@@ -349,7 +352,8 @@ def cli_history(ctx, grog, rng, hcase, stats):
     nodes, es = G.gen_attr_graph(rng, rng.randint(4, 9), plat_p=0.0)
     for n in nodes:
         n["bin"] = False
-        n["tags"] = [t for t in n["tags"] if t != "no-cache"]   # a no-cache target re-executes in every build by design (C13)
+        # a no-cache target re-executes in every build by design (C13); `testonly` would restrict who may depend on whom (build-time check)
+        n["tags"] = [t for t in n["tags"] if t not in ("no-cache", "testonly")]
         if n["name"].endswith("test") or n["name"] == "tests":
             n["name"] = n["name"].replace("test", "tgt")     # `grog build` builds non-test targets only
     scratch = ctx.scratch(f"hist{hcase}")
